@@ -209,7 +209,7 @@ func (channel *Channel) queueUnbind(method *amqp.QueueUnbind) *amqp.Error {
 	bind, bindErr := binding.NewBinding(method.Queue, method.Exchange, method.RoutingKey, method.Arguments, ex.ExType() == exchange.ExTypeTopic)
 
 	if bindErr != nil {
-		return amqp.NewConnectionError(
+		return amqp.NewChannelError(
 			amqp.PreconditionFailed,
 			bindErr.Error(),
 			method.ClassIdentifier(),
